@@ -1,5 +1,6 @@
 import RallyModel.Bulk
 import RallyProofs.Bulk
+import RallyProofs.BulkLines
 /-!
 # C03 — bulk indexing ingests every corpus document exactly once across clients
 
@@ -729,5 +730,86 @@ theorem spec_truthiness_join_misreads :
     (∃ (c : CorpusSpec Nat) (d : DocSpec Nat), d.withMeta = some false ∧ DocSpec.declared c d = false ∧ DocSpec.declaredOr c d = true) ∧
     bounds 5 1 1 2 false = (2, 3, 3) ∧ bounds 5 1 1 2 true = (4, 3, 6) := by
   refine ⟨⟨⟨some true, none, none, []⟩, ⟨[], 0, some false, none, none⟩, rfl, rfl, rfl⟩, ?_, ?_⟩ <;> decide +kernel
+
+/-! ## a LINE of a data file at byte level: it ends at `\n` and only there (every byte content)
+
+The line-level theorems above (`slice_reads_range`, `bulks_bounded`, `worker_cover`, `race_cover` …) hold for every
+type of lines; for a data file with the bytes `bs` the document set's `lines` are `splitLines bs` (lines as
+`List Byte`), whatever the bytes are: `readlines_returns_exactly_n` and `skip_with_table_eq_linear` are the tie. -/
+
+/-- **lines_end_at_newline_only**: for every byte content the lines of a file - what `mm.readline()` cuts - lose and
+    invent no byte, are never empty, contain `\n` at most as their last byte, and their number is the number of
+    `\n` bytes plus one for an unterminated rest.  `\r`, `\x0b`, `\x0c`, `\x1c`-`\x1e` and the bytes of
+    U+0085 / U+2028 / U+2029 are content of a line. -/
+theorem lines_end_at_newline_only (bs : List Byte) :
+    (splitLines bs).flatten = bs ∧ (∀ l ∈ splitLines bs, l ≠ [] ∧ 10 ∉ l.dropLast) ∧
+      (splitLines bs).length = countNL bs + (if endsNL bs then 0 else 1) :=
+  ⟨splitLines_flatten bs, splitLines_shape bs, splitLines_length bs⟩
+
+/-- `{\r}\r\n`, `U+0085 \x0b \n`, `U+2028` without terminator: three lines -/
+example : splitLines [123, 13, 125, 13, 10, 194, 133, 11, 10, 226, 128, 168] =
+    [[123, 13, 125, 13, 10], [194, 133, 11, 10], [226, 128, 168]] := by decide
+
+/-- **readlines_returns_exactly_n**: `MmapSource.readlines(k)` at any position of any file returns exactly `k`
+    elements (fewer only when the file has fewer lines left) - the next `k` lines -, their concatenation is exactly
+    the bytes consumed and the position has advanced by that many bytes.  (`Slice.__next__` adds the number of
+    elements to `current_line`: one element more or less than lines consumed shifts the end of the slice.) -/
+theorem readlines_returns_exactly_n (s : Src) (k : Nat) :
+    (s.readlines k).1.length = min k (splitLines s.rest).length ∧
+      (s.readlines k).1 = (splitLines s.rest).take k ∧
+      (s.readlines k).1.flatten ++ (s.readlines k).2.rest = s.rest ∧
+      (s.readlines k).2.pos = s.pos + (s.readlines k).1.flatten.length := by
+  refine ⟨?_, readlines_spec k s, (readlines_consumed k s).1, (readlines_consumed k s).2⟩
+  rw [readlines_spec, List.length_take]
+
+/-- two lines asked for, the first one holds a bare `\r`: two elements, 8 bytes consumed -/
+example : ((Src.seek [123, 13, 125, 10, 123, 125, 13, 10, 120] 0).readlines 2).1 = [[123, 13, 125, 10], [123, 125, 13, 10]] ∧
+    ((Src.seek [123, 13, 125, 10, 123, 125, 13, 10, 120] 0).readlines 2).2.pos = 8 := by decide
+
+/-- what `prepare_file_offset_table` returns as the code runs it (text mode, universal newlines): the number of
+    TEXT-mode lines -/
+theorem prepare_counts_text_lines (every : Nat) (bs : List Byte) :
+    (prepareOffsetTableText every bs).2 = (textLines bs).length := by
+  unfold prepareOffsetTableText
+  rw [tableLoop_count]; simp
+
+/-- **skip_with_text_table_eq_linear**: for every file in which every `\r` is followed by `\n` (files with `\n`
+    line ends, files with `\r\n` line ends, mixed), every table spacing and every target line: the table the
+    TEXT-mode pass of `prepare_file_offset_table` writes is the table of the `\n` lines, the count it returns is the
+    number of `\n` lines (what `create_file_offset_table` compares with the declared number), and seeking through
+    it equals skipping line by line, from where `readlines` delivers the lines `n, n+1, …`. -/
+theorem skip_with_text_table_eq_linear (every : Nat) (bs : List Byte) (n : Nat) (h : noBareCR bs = true) :
+    (prepareOffsetTableText every bs).2 = (splitLines bs).length ∧
+      skipLines (some (prepareOffsetTableText every bs).1) bs n = skipLines none bs n ∧
+      ∀ k, ((skipLines none bs n).readlines k).1 = ((splitLines bs).drop n).take k := by
+  rw [prepareOffsetTableText_eq every bs h]
+  exact ⟨prepare_counts_lines every bs, (skip_with_table_eq_linear every bs n).1, (skip_with_table_eq_linear every bs n).2.2⟩
+
+/-- a CRLF file satisfies the hypothesis -/
+example : noBareCR [123, 125, 13, 10, 123, 125, 13, 10] = true ∧
+    (prepareOffsetTableText 2 [123, 125, 13, 10, 123, 125, 13, 10]).1 = [(2, 8)] := by decide
+
+/-- the statement without the hypothesis -/
+def TextTableFull : Prop := ∀ (every : Nat) (bs : List Byte) (n : Nat),
+  (prepareOffsetTableText every bs).2 = (splitLines bs).length ∧
+    skipLines (some (prepareOffsetTableText every bs).1) bs n = skipLines none bs n
+
+/-- **text_table_needs_no_bare_cr**: the hypothesis is needed: in `a\rb\nc\n` the text-mode pass counts three lines
+    (the file has two) and with a spacing of 2 its table sends `skip_lines(2)` to byte 4 (`c`), line by line it
+    is byte 6 (end of file). -/
+theorem text_table_needs_no_bare_cr : ¬ TextTableFull := by
+  intro h
+  have := (h 2 [97, 13, 98, 10, 99, 10] 2).1
+  revert this
+  decide
+
+/-- **preparator_rejects_bare_cr**: what the current code does with such a file: a one-line file whose line holds a bare
+    `\r` (declared: 1 line) is refused by `create_file_offset_table` (DataError, the table is removed again), the
+    same line with a `\r\n` end is accepted. -/
+theorem preparator_rejects_bare_cr :
+    preparatorAccepts [123, 13, 125, 10] 1 = false ∧ (splitLines [123, 13, 125, 10]).length = 1 ∧
+      preparatorAccepts [123, 125, 13, 10] 1 = true := by
+  decide +kernel
+
 
 end C03
